@@ -26,7 +26,8 @@ structure F where
 
 /-- the explicit side condition, checked step by step:
     * at a read, the pending text is below the discard threshold of get_user_data
-      (`(MAX_TEXT - pending - 1)/3 >= MAX_TEXT/16`, i.e. pending ≤ 1663);
+      (`(MAX_TEXT - pending - 1)/3 >= MAX_TEXT/16`, i.e. pending ≤ 1663) or contains a complete command
+      (the read is then held back: `getUserDataH`);
     * at an extraction, the pending text does not fill the buffer (pending ≤ MAX_TEXT-2; otherwise
       first_cmd_in_buf cuts the line). -/
 def readOK (s : S) : Bool :=
